@@ -164,6 +164,15 @@ func genC01(t *rapid.T) c01Case {
 		c.Runs = append(c.Runs, h)
 	}
 	c.Runs = append(c.Runs, last)
+	if rapid.IntRange(0, 7).Draw(t, "writefaults") == 0 {
+		// the object store fails some writes of one request transiently (every such write is retried): what that
+		// request leaves in the cache serves the later ones
+		i := rapid.IntRange(0, len(c.Runs)-1).Draw(t, "faultyrun")
+		if i > 0 && rapid.Bool().Draw(t, "faultyfirst") {
+			i = 0
+		}
+		c.Runs[i].Faults = genWriteFaults(t)
+	}
 	return c
 }
 
@@ -238,11 +247,14 @@ func TestC01FSBReplay(t *testing.T) {
 
 func runC01(t *testing.T, name, prefix string) {
 	r := ev.Get("C01", name)
-	r.Rule = prefix + "rapid: generated program (2..7+ modules: maps incl. sparse/skip-empty, stores of every kind read in get and deltas mode, block indexes with filtered modules, clock-only and params-only modules, initial blocks straddling segment boundaries) x 1..3 requests run in order on one cache directory (mode, output module, start, stop or unbounded, segment size 2..7, 1..4 workers, final block unknown/below/inside/above, steered job completion order); each run compared with the single sequential execution L (dev mode, empty cache, one huge segment): strictly increasing, every delivered block equal to L's (id, payload), omissions only below the hand-off in production mode with empty payload, final stores typed-equal; non-trivial = the run scheduled >=2 segment jobs or served >=1 block from cached outputs, and the output depends on a store"
+	r.Rule = prefix + "rapid: generated program (2..7+ modules: maps incl. sparse/skip-empty, stores of every kind read in get and deltas mode, block indexes with filtered modules, clock-only and params-only modules, initial blocks straddling segment boundaries) x 1..3 requests run in order on one cache directory (mode, output module, start, stop or unbounded, segment size 2..7, 1..4 workers, final block unknown/below/inside/above, steered job completion order; in one case in eight the object store fails the first write of up to two cache files of one request transiently, which the code retries); each run compared with the single sequential execution L (dev mode, empty cache, one huge segment): strictly increasing, every delivered block equal to L's (id, payload), omissions only below the hand-off in production mode with empty payload, final stores typed-equal; non-trivial = the run scheduled >=2 segment jobs or served >=1 block from cached outputs, and the output depends on a store"
 	rapid.Check(t, func(rt *rapid.T) {
 		c := genC01(rt)
 		r.Begin(c)
 		f, stats := checkC01(c)
+		if n := writeFaultsInjected.Swap(0); n > 0 {
+			r.Count("transient-write-failures-injected", int(n))
+		}
 		nt := false
 		var cl []string
 		for i, st := range stats {
